@@ -1,6 +1,6 @@
 """C52 — server replay serves recorded responses only to matching requests, in order
 (mitmproxy/addons/serverplayback.py)."""
-import itertools, json, logging, urllib.parse, warnings
+import collections, itertools, json, logging, urllib.parse, warnings
 from common.check import PropertyCheck, Skip, hx
 
 from mitmproxy import http
@@ -163,12 +163,21 @@ class Check(PropertyCheck):
                   "real _hash as key function, once with the model's own keyOf on the parsed request parts (the model predicts "
                   "which requests match) — comparing every outcome, count, the buckets in dict order and the recorded list; "
                   "plus _hash vs keyOf vs the statement's field list on request pairs.")
-    level_note = ("trusted: SHA-256/repr injectivity on the key lists built by _hash (keyOf is the list before repr); "
+    level_note = ("ORACLE LENIENCIES (all; each tried by known_selftest on hand-written observations at every run): (a) Skip() "
+                  "only for cases with dangling indices (after shrinking); (b) `served only if keys equal` uses the statement's "
+                  "key, `a matching recording must be served` uses the key refined by the kind of form — requests that differ "
+                  "only in multipart-vs-urlencoded representation of the same non-ignored fields may or may not match (the code "
+                  "compares bytes with str); (c) whether replay is still `active` is derived from the inputs (a pending recording "
+                  "with a response => active; nothing pending => inactive) and read from the addon's own count only while nothing "
+                  "but response-less recordings is pending (the statement does not say whether skipped response-less recordings "
+                  "are discarded); (d) which recording is served and how many remain is never compared with the previous output "
+                  "alone: every pending recording with a response must be indexed, nothing else may be, count() must agree. "
+                  "trusted: SHA-256/repr injectivity on the key lists built by _hash (keyOf is the list before repr); "
                   "urllib.parse.urlparse/parse_qsl, the multipart/urlencoded decoders and Headers.get deliver the request parts "
                   "that keyOf consumes (library, fed as data); `host` of the statement is read as pretty_host (Host header "
-                  "preferred); multipart fields (bytes) and urlencoded fields (str) never compare equal unless both forms have "
-                  "no non-ignored field; response.copy()/refresh() not modelled (only which recording is served); recordings' "
-                  "requests are not mutated while loaded; the tie is differential, not a proof.")
+                  "preferred); response.copy()/refresh() not modelled (only which recording is served); recordings' requests are "
+                  "not mutated while loaded; the tie is differential, not a proof; the table-mode tie feeds the model the "
+                  "equality classes of the real _hash by design, the keyOf-mode tie lets the model predict them.")
     technique = "Lean 4 proof (invariant induction over histories) + differential model-vs-addon correspondence"
     rule = ("hist cases: a pool of <=6 request shapes drawn from small pools of method/scheme/host/port/path/query/body/"
             "form/header values (so keys collide and near-collide), <=8 recordings (some without response, some non-HTTP), "
@@ -192,6 +201,42 @@ class Check(PropertyCheck):
 
     def setup(self, tier):
         self.parallel = tier == "thorough"     # a pool only pays off for the long run
+        self.known_selftest()
+
+    def known_selftest(self):
+        """The oracle's lenient branches on hand-written observations (no addon involved): correct ones pass, ones just
+        outside the excused class are rejected.  AssertionError ends the run as INFRA."""
+        a = {"m": "POST", "s": "http", "h": "a.com", "p": 80, "path": "/p", "q": [], "hh": None, "ct": "form", "body_hex": "-",
+             "form": [["u", "1"], ["w", "2"]], "hdrs": []}
+        m = dict(a, ct="multi")                         # same fields, other kind of form
+        w3 = dict(a, form=[["u", "1"], ["w", "3"]])     # differs in a non-ignored field
+        o = {"ignore_content": False, "ignore_host": False, "ignore_port": False, "ignore_params": [],
+             "ignore_payload_params": ["u"], "use_headers": []}
+        cfg = {"reuse": False, "nopop": False, "kill_extra": False, "extra": "404", "refresh": False}
+        def run(reqs, recs, events, out, want_fail):
+            case = {"kind": "hist", "reqs": reqs, "recs": recs, "opts": [o], "events": events}
+            fails = self.oracle(case, {"out": out})
+            if want_fail is None: assert not fails, f"selftest: correct observation rejected: {fails}"
+            else: assert any(want_fail in f for f in fails), f"selftest: doctored observation not rejected for `{want_fail}`: {fails}"
+        R = lambda req, resp=True: {"req": req, "resp": resp, "http": True}
+        ld = "cnt=1 fm=0 rec=0"
+        # (1) coarse vs fine key: multipart against urlencoded fields is the only excused disagreement
+        run([a, m], [R(0)], [["load", [0]], ["req", 1, cfg]], [ld, "served:0 cnt=0 fm=- rec=-"], None)          # served: fine
+        run([a, m], [R(0)], [["load", [0]], ["req", 1, cfg]], [ld, "status:404 cnt=1 fm=0 rec=0"], None)        # not served: fine
+        run([a, w3], [R(0)], [["load", [0]], ["req", 1, cfg]], [ld, "served:0 cnt=0 fm=- rec=-"], "matching key differs")
+        run([a, dict(a)], [R(0)], [["load", [0]], ["req", 1, cfg]], [ld, "status:404 cnt=1 fm=0 rec=0"], "not served")
+        # (2) "active" is read from the addon's count only while nothing but response-less recordings is pending
+        run([a, w3], [R(0)], [["load", [0]], ["req", 1, cfg]], [ld, "forwarded cnt=1 fm=0 rec=0"], "configured status:404")
+        run([a, w3], [R(0, False)], [["load", [0]], ["req", 1, cfg]], [ld, "status:404 cnt=1 fm=0 rec=0"], None)
+        run([a, w3], [R(0, False)], [["load", [0]], ["req", 0, cfg], ["req", 1, cfg]],
+            [ld, "status:404 cnt=0 fm=- rec=-", "forwarded cnt=0 fm=- rec=-"], None)
+        run([a], [R(0)], [["clear"], ["req", 0, cfg]], ["cnt=0 fm=- rec=-", "status:404 cnt=0 fm=- rec=-"], "replay inactive")
+        # (3) input-derived: nothing lost or duplicated, at every event (not only compared with the previous output)
+        run([a], [R(0), R(0)], [["load", [0, 1]], ["conf", 0]], ["cnt=2 fm=0,1 rec=0,1", "cnt=1 fm=0 rec=0"], "re-index changed")
+        run([a], [R(0), R(0)], [["load", [0, 1]]], ["cnt=1 fm=0 rec=0"], "are lost")
+        run([a], [R(0)], [["load", [0]]], ["cnt=2 fm=0,0 rec=0,0"], "not pending / duplicated")
+        run([a], [R(0)], [["load", [0]], ["req", 0, cfg], ["req", 0, cfg]],
+            [ld, "served:0 cnt=0 fm=- rec=-", "served:0 cnt=0 fm=- rec=-"], "not (any more) among the unserved")
 
     # ---------------------------------------------------------------- generation
     M = ["GET", "POST"]; S = ["http", "https"]; H = ["a.com", "b.com"]; P = [80, 8080]; PATH = ["/p", "/q", "/"]
@@ -401,6 +446,7 @@ class Check(PropertyCheck):
                     fails.append(f"event {n}: re-index changed the remaining recordings {prev_ms} -> {ms}")
             else:
                 res, c, q = parts[0], ev[2], reqs[ev[1]]
+                pending_before = list(pending); with_resp_before = [i for i in pending if recs[i]["resp"]]
                 kq = spec_key(o, q)
                 reuse = c["reuse"] or c["nopop"]
                 kqf = spec_key(o, q, True)
@@ -417,7 +463,10 @@ class Check(PropertyCheck):
                         fails.append(f"event {n}: served recording {i}, but {cand[0]} was recorded earlier with an equal key (reuse={reuse})")
                     if not reuse and i in pending: pending.remove(i)
                 else:
-                    active = prev_cnt > 0           # "while server replay is active"
+                    # "while server replay is active": from the inputs — active while a recording with a response is
+                    # pending, inactive when nothing is; only when all that is left are response-less recordings (which
+                    # the addon may or may not have discarded while skipping them) is the addon's own count consulted
+                    active = True if with_resp_before else (False if not pending_before else prev_cnt > 0)
                     if active and cand:
                         fails.append(f"event {n}: matching recording {cand[0]} not served ({res})")
                     elif active:
@@ -426,6 +475,16 @@ class Check(PropertyCheck):
                         if res != want: fails.append(f"event {n}: unmatched request got {res}, configured {want}")
                     elif res != "forwarded":
                         fails.append(f"event {n}: replay inactive but request got {res}")
+            # "without losing or duplicating any" (input-derived, after every event): every pending recording that has a
+            # response is still indexed, nothing is indexed that is not pending, and count() counts what is indexed
+            have, lo, hi = collections.Counter(ms), collections.Counter(str(i) for i in pending if recs[i]["resp"]), \
+                collections.Counter(str(i) for i in pending)
+            if lo - have:
+                fails.append(f"event {n} ({k}): pending recordings {sorted((lo - have).elements())} are lost (indexed: {ms})")
+            elif have - hi:
+                fails.append(f"event {n} ({k}): recordings {sorted((have - hi).elements())} are indexed but not pending / duplicated (indexed: {ms})")
+            elif cnt != len(ms):
+                fails.append(f"event {n} ({k}): count() = {cnt} but {len(ms)} recordings are indexed")
             prev_cnt, prev_ms = cnt, ms
             if fails: break
         return fails
